@@ -49,7 +49,8 @@ func boolp(b bool) *bool { return &b }
 func mkRule(id, expr string, methods []string, bt *bool) rconfig.Rule {
 	return rconfig.Rule{
 		ID:      id,
-		Matcher: rconfig.Matcher{Routes: []rconfig.Route{{Path: expr}}, Methods: methods, BacktrackingEnabled: bt},
+		// heimdall's createMethodMatcher edits the slice it is given in place: never share it
+		Matcher: rconfig.Matcher{Routes: []rconfig.Route{{Path: expr}}, Methods: append([]string(nil), methods...), BacktrackingEnabled: bt},
 		Execute: []config.MechanismConfig{{"authenticator": "anon"}},
 	}
 }
